@@ -232,3 +232,56 @@ func (r *Replayer) Run(vecs []*Vector) ([]*NativeResult, error) {
 	}
 	return out, nil
 }
+
+func osMkdirAll(p string) { os.MkdirAll(p, 0755) }
+
+func writeJSON(path string, v interface{}) {
+	b, _ := json.MarshalIndent(v, "", " ")
+	os.WriteFile(path, b, 0644)
+}
+
+func firstLines(s string, n int) string {
+	ls := strings.Split(s, "\n")
+	if len(ls) > n {
+		ls = ls[:n]
+	}
+	return strings.Join(ls, " | ")
+}
+
+// RunRace runs one vector in `runs` fresh processes of the -race build (cold start each time).
+func (r *Replayer) RunRace(v *Vector, runs int) (raced bool, failures []string, output string, err error) {
+	if err := r.build(); err != nil {
+		return false, nil, "", err
+	}
+	p := filepath.Join(r.dir, "race-vec.json")
+	b, _ := json.Marshal(v)
+	os.WriteFile(p, b, 0644)
+	for i := 0; i < runs; i++ {
+		os.Remove(p + ".out")
+		cmd := exec.Command(r.bin, "-test.run", "TestVerifReplay", "-test.count=1")
+		cmd.Dir = repoDir()
+		cmd.Env = append(goEnv(), "VERIF_VECTORS="+p, "VERIF_GOLDEN="+filepath.Join(verifDir(), "golden"), "GORACE=halt_on_error=0")
+		out, _ := cmd.CombinedOutput()
+		if strings.Contains(string(out), "DATA RACE") {
+			raced = true
+			output = string(out)
+		}
+		if rb, rerr := os.ReadFile(p + ".out"); rerr == nil {
+			var nr NativeResult
+			if json.Unmarshal(rb, &nr) == nil {
+				if len(nr.Failures) > 0 || nr.Panic != "" {
+					failures = append(nr.Failures, nr.Panic)
+					if output == "" {
+						output = string(out)
+					}
+				}
+			}
+		} else if !raced {
+			return false, nil, string(out), fmt.Errorf("race replay produced no result: %s", firstLines(string(out), 20))
+		}
+		if raced || len(failures) > 0 {
+			return
+		}
+	}
+	return
+}
